@@ -239,7 +239,9 @@ def run_one(h, prefix, opts):
 
     # ---- witness replay on the unmodified code (every feasible completed path)
     witness = None
-    if final is not None and h.witness and rec["status"] == "ok":
+    if final is not None and h.witness and rec["status"] == "ok" and ctx.witness_incomplete:
+        witness = {"ok": None, "nice": False}
+    elif final is not None and h.witness and rec["status"] == "ok":
         model = ctx.model
         sym_obs = [(l, plain(eval_under(model, v))) for (l, v) in ctx.observations]
         CS, cexc = run_concrete(h, final)
